@@ -30,6 +30,16 @@ def install_models(state):
             return some(Ref(Cont([Opaque('mapping', {'i': i})]), 0))
         return none()
 
+    @front(r'^serde_yaml::Mapping::(is_empty|len)$')
+    def m_mapping_is_empty(ex, callee, args):
+        m = deref_all(args[0])
+        if not (isinstance(m, Opaque) and m.kind == 'mapping'):
+            raise Unsupported('Mapping::%s of something that is not an example' % callee.rsplit('::', 1)[1])
+        e = state['is_empty'][m.data['i']]
+        if callee.endswith('is_empty'):
+            return e
+        return BV(z3.If(e, z3.BitVecVal(0, 64), z3.BitVecVal(2, 64)), 'usize')
+
     @front(r'^core::fmt::rt::Argument::<.*>::new_debug::<&serde_yaml::Value>$')
     def m_new_debug(ex, callee, args):
         return Opaque('fmtarg', deref_all(args[0]))
@@ -129,10 +139,16 @@ def run_unit(ck, unit):
     total = p + n
     state = {'is_mapping': [z3.Bool('is_mapping%d' % i) for i in range(total)],
              'matches': [z3.Bool('matches%d' % i) for i in range(total)],
+             # the empty mapping is a legitimate example (a rule can match it); it is one document
+             'is_empty': [z3.Bool('is_empty%d' % i) for i in range(total)],
              'same': {(i, j): z3.Bool('same%d_%d' % (i, j)) for i in range(total) for j in range(i + 1, total)}}
     # equal examples are the same document: same shape, same verdict (and equality is transitive)
+    for i in range(total):
+        uni.axioms.append(z3.Implies(state['is_empty'][i], state['is_mapping'][i]))
     for (i, j), sij in state['same'].items():
-        uni.axioms.append(z3.Implies(sij, z3.And(state['is_mapping'][i] == state['is_mapping'][j], state['matches'][i] == state['matches'][j])))
+        uni.axioms.append(z3.Implies(sij, z3.And(state['is_mapping'][i] == state['is_mapping'][j], state['matches'][i] == state['matches'][j],
+                                                 state['is_empty'][i] == state['is_empty'][j])))
+        uni.axioms.append(z3.Implies(z3.And(state['is_empty'][i], state['is_empty'][j]), sij))
         for k in range(j + 1, total):
             uni.axioms.append(z3.Implies(z3.And(sij, state['same'][(j, k)]), state['same'][(i, k)]))
             uni.axioms.append(z3.Implies(z3.And(sij, state['same'][(i, k)]), state['same'][(j, k)]))
@@ -167,7 +183,7 @@ def run_unit(ck, unit):
 
     markers = {}
 
-    def replay(model, what):
+    def replay(model, what, pad=None):
         # a rule whose examples realise the model: positives/negatives that match / do not match / are not mappings
         def ex_yaml(i):
             # distinct examples get distinct extra fields unless the model says they are the same document
@@ -179,14 +195,21 @@ def run_unit(ck, unit):
             markers[i] = str((2000 if not z3.is_true(model.eval(im[i], model_completion=True)) else 1000) + rep)
             if not z3.is_true(model.eval(im[i], model_completion=True)):
                 return '- %d' % (2000 + rep)
-            return ('- f: a\n  id: %d' % (1000 + rep)) if z3.is_true(model.eval(ma[i], model_completion=True)) else ('- f: b\n  id: %d' % (1000 + rep))
+            if z3.is_true(model.eval(state['is_empty'][i], model_completion=True)):
+                markers[i] = '{}'
+                return '- {}'
+            extra = ('\n  pad: \'%s\'' % pad) if pad else ''
+            return (('- f: a\n  g: b\n  id: %d' % (1000 + rep)) if z3.is_true(model.eval(ma[i], model_completion=True)) else ('- f: b\n  g: b\n  id: %d' % (1000 + rep))) + extra
         tp = '\n'.join(ex_yaml(i) for i in range(p)) or '[]'
         tn = '\n'.join(ex_yaml(i) for i in range(p, total)) or '[]'
-        yaml = 'detection:\n  A:\n    f: a\n  condition: A\ntrue_positives:%s\ntrue_negatives:%s\n' % (
-            ('\n' + tp) if p else ' []', ('\n' + tn) if n else ' []')
+        # the empty mapping matches `not (not A or not B)` (every field missing, and not(missing) is false) and not `A and B`
+        empty_matches = any(z3.is_true(model.eval(z3.And(state['is_empty'][i], ma[i]), model_completion=True)) for i in range(total))
+        cond = 'not (not A or not B)' if empty_matches else 'A and B'
+        yaml = 'detection:\n  A:\n    f: a\n  B:\n    g: b\n  condition: %s\ntrue_positives:%s\ntrue_negatives:%s\n' % (
+            cond, ('\n' + tp) if p else ' []', ('\n' + tn) if n else ' []')
         r = br.call(cmd='validate', yaml=yaml, opts=None)
         r2 = br.call(cmd='validate', yaml=yaml, opts=[True, True, True, True])
-        path = ck.write_replay(safe_name(label + '_' + what), {'rule': yaml, 'native': r, 'native_optimised': r2, 'what': what,
+        path = ck.write_replay(safe_name(label + '_' + what + ('_long' if pad else '')), {'rule': yaml, 'native': r, 'native_optimised': r2, 'what': what,
                                                               'request': {'cmd': 'validate', 'yaml': yaml, 'opts': None}})
         return yaml, r, r2, path
 
@@ -247,6 +270,20 @@ def run_unit(ck, unit):
                     return ('violation', path, '%s: the validation error does not name failing example %d: %r' % (label, i, text[:200]))
                 if not failing and markers[i] in text and not mentioned_elsewhere:
                     return ('violation', path, '%s: the validation error names example %d which does not fail: %r' % (label, i, text[:200]))
+        # the executor renders an example as an opaque text; anything the real code does with that text (cutting,
+        # re-encoding) only shows on real, long, non-ASCII examples: the same witness again with a padded extra field
+        for padtxt in ('\u00e9' * 200, 'a' + '\u00e9' * 200):
+            yaml2, q, q2, path2 = replay(model, 'spec', pad=padtxt)
+            for qq in (q, q2):
+                if 'panic' in qq:
+                    return ('violation', path2, '%s: validate() panics on a long example: %s' % (label, qq['panic'][:160]))
+                if (qq.get('result') is True) != want_ok:
+                    return ('violation', path2, '%s: validate() says %r on long examples, examples say %s' % (label, qq, want_ok))
+            if not want_ok:
+                text = q.get('error', '')
+                for i in range(total):
+                    if z3.is_true(model.eval(fails[i], model_completion=True)) and markers[i] not in text:
+                        return ('violation', path2, '%s: the validation error does not name failing (long) example %d: %r' % (label, i, text[:200]))
         return ('spurious', 'native validate agrees on the outcome; message contents are decided on the MIR only (%s)' % path)
     ck.obligation(label + ':ok <=> all examples right; errors name the failing examples', uni,
                   b_or(*[b for b in bad if b is not False]) if any(b is not False for b in bad) else False, on_sat=on_spec)
